@@ -29,6 +29,7 @@ type Op struct {
 	Fail  bool   `json:"fail,omitempty"` // the callback returns an error
 	Idx   bool   `json:"idx,omitempty"`  // indexed batch / Update (vs Write)
 	NilB  bool   `json:"nil,omitempty"`  // pass nil instead of []byte{} for empty byte strings
+	Wrap  string `json:"wrap,omitempty"` // newbatch: "" | "sync" (db.SyncBatch) | "buffer" (db.BufferBatch) around an indexed batch
 	Inner []Op   `json:"inner,omitempty"`
 }
 
